@@ -31,11 +31,20 @@ Fixpoint mapM {A B} (f : A -> M B) (l : list A) : M (list B) :=
   | x :: r => y <- f x ;; ys <- mapM f r ;; ret (y :: ys)
   end.
 
-Definition chunk_bytes (a : addr) : M (list N) :=
+(* a chunk of a chunked string of kind [text], as cbor_serialize_string / cbor_serialize_bytestring reads it:
+   the serializer of the chunked string calls ITSELF on every chunk, and begins with
+   CBOR_ASSERT(cbor_isa_string(item)) resp. CBOR_ASSERT(cbor_isa_bytestring(item)) (serialization.c:224 / 257;
+   assert ids 72 / 73 as in HHist3.serialize_typed).  A chunk of the right kind that is itself indefinite would be
+   serialized nested by the C code (no check there); the P tree has no such shape: FType. *)
+Definition chunk_kind_assert (text : bool) : fkind := FAssert (if text then 73 else 72).
+Definition chunk_bytes (text : bool) (a : addr) : M (list N) :=
   c <- rd_item a ;;
   match snd c with
-  | NStr _ data bytes => (if len bytes =? 0 then ret tt else touch_data false data) ;;; ret bytes
-  | _ => fail FType
+  | NStr t data bytes =>
+      if Bool.eqb t text then (if len bytes =? 0 then ret tt else touch_data false data) ;;; ret bytes
+      else fail (chunk_kind_assert text)
+  | NChunked t _ _ _ _ => if Bool.eqb t text then fail FType else fail (chunk_kind_assert text)
+  | _ => fail (chunk_kind_assert text)
   end.
 
 Fixpoint abs (fuel : nat) (a : addr) : M item :=
@@ -53,7 +62,7 @@ Fixpoint abs (fuel : nat) (a : addr) : M item :=
     | NChunked text hdr arr _ chunks =>
         touch_data false (Some hdr) ;;;
         (match chunks with [] => ret tt | _ => touch_data false arr end) ;;;
-        cs <- mapM chunk_bytes chunks ;;
+        cs <- mapM (chunk_bytes text) chunks ;;
         ret (if text then ITextI cs else IBytesI cs)
     | NArr indef data _ elems =>
         (match elems with [] => ret tt | _ => touch_data false data end) ;;;
